@@ -272,7 +272,9 @@ fn get_key_type_open(m: &MappingAtomicType) -> Rc<SemType> {
 }
 
 // Determines the constraint imposed by `neg`'s index signature on the "rest" of `pos`.
-// If `pos`'s index keys are covered by `neg`'s index keys, then `neg` imposes its index value constraint.
+// If some of the keys `pos` may carry beyond the declared ones are also index keys of `neg`, then `neg` imposes
+// its index value constraint (a value of `pos` can carry such a key). The keys need not all be covered: for the
+// others `neg` is open. The declared keys of both sides are left out: they are compared one by one before.
 // Crucially, since index signatures in `neg` represent "if a key exists, it must match X",
 // but don't enforce existence, the effective constraint is `X | void` (optional).
 fn get_effective_index_value(
@@ -280,10 +282,16 @@ fn get_effective_index_value(
     neg: &MappingAtomicType,
     ctx: &mut SemTypeContext,
 ) -> Result<Rc<SemType>> {
-    let pos_key = get_key_type_exact(pos);
+    let mut free_keys = get_key_type_exact(pos);
+    for k in pos.vs.keys().chain(neg.vs.keys()) {
+        let k_type = Rc::new(SemTypeContext::string_const(StringLitOrFormat::Tpl(
+            TplLitType(vec![TplLitTypeItem::StringConst(k.to_string())]),
+        )));
+        free_keys = free_keys.diff(&k_type)?;
+    }
     let neg_key = get_key_type_open(neg);
 
-    if pos_key.is_subtype(&neg_key, ctx)? {
+    if !free_keys.intersect(&neg_key)?.is_empty(ctx)? {
         let val = get_index_value_open(neg);
         SemTypeContext::make_optional(val)
     } else {
